@@ -2,4 +2,4 @@
 # runs the recorded behaviour-preserving refactorings (harmless/LIST.txt: diff + the properties whose contracts cover the function) through
 # the quick checks on scratch copies; every line must say exit=0 (a non-zero exit on one of them is a false alarm or a brittle contract)
 cd "$(dirname "$0")/.."
-cat harmless/LIST.txt | xargs -P ${1:-3} -I{} sh -c 'tools/harmtest.sh {} < /dev/null'
+sed "s#^#$PWD/#" harmless/LIST.txt | xargs -P ${1:-3} -I{} sh -c 'tools/harmtest.sh {} < /dev/null'
